@@ -74,9 +74,14 @@ package sync
 // cancelSeen: a header fetch was abandoned because the context ended (the loop is about to stop)
 //@ ghost var coveredTo int
 //@ ghost var cancelSeen bool
+// chainTip: a block the node's head is never below (A8: the node the syncer talks to has at least the blocks the store
+// has processed; a node that lags behind the store is outside the stated domain). The answer is the block the caller
+// has seen only when the context ended (proved of the implementation: no-progress-only-when-the-context-ended).
+//@ ghost var chainTip int
 //@ interface github.com/agglayer/aggkit/sync.EVMDownloaderInterface.WaitForNewBlocks (self, ctx, lastBlockSeen)
-//@   modifies nothing
-//@   ensures result >= lastBlockSeen && result < 9223372036854775808
+//@   modifies cancelSeen
+//@   ensures result >= lastBlockSeen && result >= chainTip && result < 9223372036854775808
+//@   ensures (result > lastBlockSeen || cancelSeen) && (old(cancelSeen) ==> cancelSeen)
 //@ interface github.com/agglayer/aggkit/sync.EVMDownloaderInterface.GetLastFinalizedBlock (self, ctx)
 //@   modifies nothing
 //@   ensures result1 == nil ==> result0 != nil && result0.Number != nil && 0 <= bigval(result0.Number) && bigval(result0.Number) < 18446744073709551615
@@ -85,15 +90,24 @@ package sync
 //@   ensures scanGap == (old(scanGap) || fromBlock > old(scanNext))
 //@   ensures scanNext == ite(toBlock + 1 > old(scanNext) && fromBlock <= old(scanNext), toBlock + 1, old(scanNext))
 //@   ensures forall(k, 0, len(result), result[k] != nil && fromBlock <= result[k].Num && result[k].Num <= toBlock)
+// (proved of the implementation: each-block-once-in-increasing-order)
+//@   ensures forall(k, 0, len(result) - 1, result[k].Num < result[k+1].Num) && forall(j, 0, len(result), forall(k, j + 1, len(result), result[j].Num < result[k].Num))
 //@ interface github.com/agglayer/aggkit/sync.EVMDownloaderInterface.GetBlockHeader (self, ctx, blockNum)
-//@   modifies nothing
+//@   modifies cancelSeen
 //@   ensures !result1 ==> result0.Num == blockNum
+//@   ensures cancelSeen == (old(cancelSeen) || result1)
 
 //@ func (d *EVMDownloader) reportBlocks
 //@   props C05
 //@   requires d != nil && d.log != nil
 //@   requires forall(k, 0, len(blocks), blocks[k] != nil)
 //@   modifies region("chan:aggkit/sync.EVMBlock.sent"), region("chan:aggkit/sync.EVMBlock.nsent"), region("aggkit/sync.EVMBlock.IsFinalizedBlock"), coveredTo
+// what the driver receives (the channel's ghost log): every block of the batch, once, in the batch's order, after
+// everything sent before
+//@   ensures[every-block-sent-once-in-order] nsent(downloadedCh) == old(nsent(downloadedCh)) + len(blocks) && forall(i, old(nsent(downloadedCh)), nsent(downloadedCh), sentAt(downloadedCh, i).Num == blocks[i - old(nsent(downloadedCh))].Num)
+//@   ensures[earlier-sends-untouched] forall(i, 0, old(nsent(downloadedCh)), sentAt(downloadedCh, i) == old(sentAt(downloadedCh, i)))
+//@   loop 0 invariant 0 <= rangeindex + 1 && rangeindex + 1 <= len(blocks) && nsent(downloadedCh) == old(nsent(downloadedCh)) + rangeindex + 1 && forall(i, old(nsent(downloadedCh)), nsent(downloadedCh), sentAt(downloadedCh, i).Num == blocks[i - old(nsent(downloadedCh))].Num)
+//@   loop 0 invariant forall(i, 0, old(nsent(downloadedCh)), sentAt(downloadedCh, i) == old(sentAt(downloadedCh, i)))
 //@   set coveredTo := ite(len(blocks) > 0 && blocks[len(blocks) - 1].Num > old(coveredTo), blocks[len(blocks) - 1].Num, old(coveredTo))
 //@   ensures[reported-blocks-are-covered] coveredTo == ite(len(blocks) > 0 && blocks[len(blocks) - 1].Num > old(coveredTo), blocks[len(blocks) - 1].Num, old(coveredTo))
 //@   loop 0 invariant d != nil && d.log != nil && forall(k, 0, len(blocks), blocks[k] != nil)
@@ -103,7 +117,9 @@ package sync
 //@   requires d != nil && d.log != nil && d.EVMDownloaderInterface != nil
 //@   requires[marker-only-after-the-scan] blockNum < scanNext
 //@   modifies region("chan:aggkit/sync.EVMBlock.sent"), region("chan:aggkit/sync.EVMBlock.nsent"), coveredTo, cancelSeen
-//@   choose cancelSeen with true
+//@   ensures[one-marker-for-that-block-unless-cancelled] (cancelSeen && nsent(downloadedCh) == old(nsent(downloadedCh))) || (nsent(downloadedCh) == old(nsent(downloadedCh)) + 1 && sentAt(downloadedCh, old(nsent(downloadedCh))).Num == blockNum)
+//@   ensures[earlier-sends-untouched] forall(i, 0, old(nsent(downloadedCh)), sentAt(downloadedCh, i) == old(sentAt(downloadedCh, i)))
+//@   ensures[cancellation-is-sticky] old(cancelSeen) ==> cancelSeen
 //@   set coveredTo := ite(!cancelSeen && blockNum > old(coveredTo), blockNum, old(coveredTo))
 //@   ensures[marker-covers-its-block-unless-cancelled] cancelSeen || coveredTo >= blockNum
 //@   ensures[covered-never-shrinks] coveredTo >= old(coveredTo)
@@ -112,9 +128,21 @@ package sync
 //@   props C05
 //@   requires d != nil && d.log != nil && d.EVMDownloaderInterface != nil
 //@   requires scanNext == fromBlock && !scanGap && fromBlock < 9223372036854775808 && d.syncBlockChunkSize < 4294967296
-//@   requires coveredTo + 1 == fromBlock && !cancelSeen
+//@   requires coveredTo + 1 == fromBlock && !cancelSeen && fromBlock <= chainTip + 1
 //@   modifies heap, scanNext, scanGap, coveredTo, cancelSeen
 //@   ensures[no-block-skipped] !scanGap
+// what the driver receives over the whole download: block numbers strictly increasing (so no block twice, none out of
+// order) and none below the start block - unless the context ended, after which the driver stops reading
+//@   ensures[handed-on-once-in-increasing-order] cancelSeen || forall(i, old(nsent(downloadedCh)), nsent(downloadedCh) - 1, sentAt(downloadedCh, i).Num < sentAt(downloadedCh, i + 1).Num)
+//@   ensures[nothing-below-the-start-block] cancelSeen || forall(i, old(nsent(downloadedCh)), nsent(downloadedCh), sentAt(downloadedCh, i).Num >= old(scanNext))
+//@   loop 0 invariant nsent(downloadedCh) >= old(nsent(downloadedCh)) && old(scanNext) <= fromBlock && fromBlock <= toBlock
+// machine arithmetic: the upper end of the scan window is extended by one chunk per poll while no log and no finality
+// progress is seen; it would take more than 2^32 such polls in a row to wrap it around 2^64. Not proved, listed.
+//@   loop 0 assumed toBlock + d.syncBlockChunkSize < 18446744073709551616
+//@   loop 0 invariant cancelSeen || fromBlock <= lastBlock + 1
+//@   loop 0 invariant cancelSeen || forall(i, old(nsent(downloadedCh)), nsent(downloadedCh) - 1, sentAt(downloadedCh, i).Num < sentAt(downloadedCh, i + 1).Num)
+//@   loop 0 invariant cancelSeen || forall(i, old(nsent(downloadedCh)), nsent(downloadedCh), old(scanNext) <= sentAt(downloadedCh, i).Num)
+//@   loop 0 invariant cancelSeen || forall(i, old(nsent(downloadedCh)), nsent(downloadedCh), sentAt(downloadedCh, i).Num < fromBlock)
 //@   loop 0 invariant d != nil && d.log != nil && d.EVMDownloaderInterface != nil && d.syncBlockChunkSize < 4294967296
 //@   loop 0 invariant lastBlock < 9223372036854775808
 //@   loop 0 invariant fromBlock <= 9223372036854775808
@@ -208,6 +236,7 @@ package sync
 //@   ensures[no-answer-only-when-the-context-ended] result == nil ==> (ctxEnded || hdrCancelled)
 //@   ensures[blocks-inside-the-range] forall(k, 0, len(result), result[k] != nil && fromBlock <= result[k].Num && result[k].Num <= toBlock)
 //@   ensures[each-block-once-in-increasing-order] forall(k, 0, len(result) - 1, result[k].Num < result[k+1].Num)
+//@   ensures[increasing-pairwise] forall(j, 0, len(result), forall(k, j + 1, len(result), result[j].Num < result[k].Num))
 // every log is decoded into the block that carries the log's own number and hash (given that the node answers in block
 // order with one hash per block number, A8)
 //@   assert call:dyn arg0 != nil && arg0.Num == arg1.BlockNumber && arg0.Hash == arg1.BlockHash
@@ -218,10 +247,12 @@ package sync
 //@   loop 0 invariant (latestBlock == nil) == (len(blocks) == 0) && (latestBlock != nil ==> latestBlock == blocks[len(blocks) - 1])
 //@   loop 0 invariant forall(k, 0, len(blocks), blocks[k] != nil && fresh(blocks[k]) && fromBlock <= blocks[k].Num && blocks[k].Num <= toBlock)
 //@   loop 0 invariant forall(k, 0, len(blocks) - 1, blocks[k].Num < blocks[k+1].Num)
+//@   loop 0 invariant forall(j, 0, len(blocks), forall(k, j + 1, len(blocks), blocks[j].Num < blocks[k].Num))
 //@   loop 1 invariant d != nil && d.log != nil && d.rh != nil && latestBlock != nil && latestBlock == blocks[len(blocks) - 1] && off(blocks) == 0 && ref(blocks) != 0
 //@   loop 1 invariant latestBlock.Num == l.BlockNumber && latestBlock.Hash == l.BlockHash
 //@   loop 1 invariant forall(k, 0, len(blocks), blocks[k] != nil && fresh(blocks[k]) && fromBlock <= blocks[k].Num && blocks[k].Num <= toBlock)
 //@   loop 1 invariant forall(k, 0, len(blocks) - 1, blocks[k].Num < blocks[k+1].Num)
+//@   loop 1 invariant forall(j, 0, len(blocks), forall(k, j + 1, len(blocks), blocks[j].Num < blocks[k].Num))
 
 // waiting for the chain to advance (C05): the answer is never behind the block the caller has seen, and it is that same
 // block only when the context has ended (the download loop then stops); a failing RPC is retried
